@@ -6,6 +6,8 @@ set -u
 PATCH=$(realpath "$1"); shift
 TRY=${TRY:-/work/try}
 SCR=/tmp/try_repo_$$
+# the evaluation worktree of /verif is created on first use (its first check builds everything it needs)
+[ -d "$TRY" ] || { mkdir -p "$(dirname "$TRY")"; git -C "$(dirname "$0")/.." worktree add -q "$TRY" -B "$(basename "$TRY")" main || exit 2; }
 git -C "$TRY" checkout -q -- . ; git -C "$TRY" clean -fdq evidence corpus 2>/dev/null
 git -C "$TRY" merge -q main -m sync >/dev/null 2>&1 || { echo "try worktree cannot be synced"; exit 2; }
 git -C /repo worktree add -q "$SCR" HEAD || exit 2
